@@ -112,6 +112,7 @@ class C19:
         nod = rnd.choice([-9999, -9999, "NaN", 0])
         mode = rnd.choices(["plain", "preexisting", "stale", "out_is_file", "write_faults"], [5, 1, 1, 1, 2])[0]
         return {"harness": "cli", "world": w, "program": prog, "nodata": nod, "mode": mode,
+                "fresh_replay": mode == "plain" and rnd.random() < 0.08,
                 "img_dtype": rnd.choice(["float32", "float32", "int16", "uint8"]),
                 "fault": rnd.choice(["EIO", "ENOSPC", "EACCES"])}
 
@@ -307,6 +308,26 @@ class C19:
                 for pr in cr.get("problems", []):
                     viol.append({"class": "C19.replay_differs", "sig": {"what": pr[0], "file": pr[1].split("_", 1)[-1]}})
                 cov["replays_compared"] = 1
+                if sc.get("fresh_replay"):
+                    # the same replay in a freshly spawned interpreter: nothing but the files and the code survives
+                    import subprocess
+
+                    out3 = os.path.join(tmp, "out3")
+                    worker = os.path.join(os.path.dirname(os.path.abspath(__file__)), "c19_replay_worker.py")
+                    pr_ = subprocess.run([sys.executable, worker, os.path.join(out, "cfg", "config.json"), out3],
+                                         capture_output=True, timeout=600, env=dict(os.environ))
+                    if pr_.returncode != 0:
+                        viol.append({"class": "C19.saved_configuration_refused_on_replay",
+                                     "sig": {"fresh_interpreter": True}, "msg": pr_.stdout.decode(errors="replace")[-300:]})
+                    else:
+                        a_, b_ = read_products(out), read_products(out3)
+                        for k in sorted(mem):
+                            if k not in b_ or a_[k]["dtype"] != b_[k]["dtype"] or not same_array(a_[k]["data"], b_[k]["data"]) \
+                                    or a_[k]["descriptions"] != b_[k]["descriptions"]:
+                                viol.append({"class": "C19.replay_differs", "sig": {"what": "fresh_interpreter",
+                                                                                    "file": k.split("_", 1)[-1]}})
+                                break
+                        cov["fresh_interpreter_replays_compared"] = 1
             # ---- write-fault sweep: complete over every write-open, makedirs and the config open
             if mode == "write_faults":
                 plans = [("write", k) for k in range(seam.counts["write"])] + \
@@ -337,6 +358,7 @@ class C19:
                        "nan_invalid_disparity": int(any(p.get("invalid_disparity") == "NaN" for _, p in sc["program"])),
                        "right_products": int("validation" in kinds), "grid_disparities": int(w["disp"]["kind"] == "grid"),
                        "confidence_bands": int("cost_volume_confidence" in kinds),
+                       "fresh_interpreter_replay": int(bool(sc.get("fresh_replay"))),
                        "mode:" + sc["mode"]: 1},
         }
 
@@ -356,7 +378,8 @@ class C19:
             "non-trivial = main completed under the seam and its files were compared by a forked reader with the captured "
             "products, the saved configuration was compared and replayed from a pristine fork.",
             "assumptions": [
-                "restart = a process forked from the pristine (booted, nothing-run) state that sees only the files",
+                "restart = a process forked from the pristine (booted, nothing-run) state that sees only the files; "
+                "8 % of the plain scenarios additionally replay in a freshly spawned interpreter",
                 "same rasters on replay = same dtype, band names and pixels bit-for-bit",
                 "the completed configuration is what check_conf returns for the user's file; the 'indicator' keys that "
                 "run-time adds to confidence steps are ignored in the comparison",
